@@ -810,7 +810,7 @@ class GrpcSim(Simulator):
                    "Struct/Value/ListValue request/response types are not driven by the generic value generator",
                    "handlers consume the whole request stream before raising"]
     tiers = {
-        "quick": dict(runs=12000, chunk=100, wall_cap=300, det_sample=int(__import__("os").environ.get("VERIF_DET_SAMPLE", "120"))),
+        "quick": dict(runs=24000, chunk=100, wall_cap=300, det_sample=int(__import__("os").environ.get("VERIF_DET_SAMPLE", "120"))),
         "thorough": dict(runs=400000, chunk=200, wall_cap=1500, det_sample=1000),
     }
     faults_enabled = True
